@@ -35,6 +35,16 @@ func Start(s *memsock.Sock, cfg knx.TunnelConfig) (*Client, error) {
 	return &Client{S: s, T: t, Cfg: cfg}, nil
 }
 
+// StartReal connects a real Tunnel through the library's own constructor and
+// UDP socket to a bridge socket (memsock.NewBridge).
+func StartReal(s *memsock.Sock, cfg knx.TunnelConfig) (*Client, error) {
+	t, err := knx.NewTunnel(s.BridgeAddr(), knxnet.TunnelLayerData, cfg)
+	if err != nil {
+		return nil, err
+	}
+	return &Client{S: s, T: t, Cfg: cfg}, nil
+}
+
 // Send calls Tunnel.Send with a telegram carrying id and records call and
 // return in the wire log's total order.
 func (c *Client) Send(g int, id uint32) error {
@@ -126,6 +136,12 @@ type Params struct {
 	// Slack added to upper time bounds (from the stall canary).
 	Slack time.Duration
 	TCP   bool
+	// EarlyTolerance loosens the "never earlier than k x resend interval" bound
+	// (loopback slices: timestamps are taken when the datagram is received).
+	EarlyTolerance time.Duration
+	// Bridge: wire events were logged on receipt at the peer (loopback slice), so a
+	// datagram in flight may be logged after the Send's return mark.
+	Bridge bool
 	// Epochs: log indices at which a successful ConnRes was taken by the
 	// client after the first connect (quiescent reconnects only).
 	Boundaries []int
@@ -189,7 +205,7 @@ func CheckSender(log []memsock.Event, p Params) (finds []Finding, ops []*SendOp)
 		}
 		// frames lie within call..ret
 		for _, fi := range o.Frames {
-			if fi < o.CallIdx || fi > o.RetIdx {
+			if fi < o.CallIdx || (fi > o.RetIdx && !p.Bridge) {
 				add("sender.frame-outside-call", []uint32{o.ID}, "a request of telegram %d went out at log index %d outside its Send [%d,%d]", o.ID, fi, o.CallIdx, o.RetIdx)
 			}
 		}
@@ -200,7 +216,7 @@ func CheckSender(log []memsock.Event, p Params) (finds []Finding, ops []*SendOp)
 			if string(e.Bytes) != string(first.Bytes) {
 				add("sender.retransmission-differs", []uint32{o.ID}, "retransmission %d of telegram %d differs from the first transmission: %x vs %x", k, o.ID, e.Bytes, first.Bytes)
 			}
-			if !p.TCP && e.T+50*time.Microsecond < first.T+time.Duration(k)*p.Resend {
+			if !p.TCP && e.T+50*time.Microsecond+p.EarlyTolerance < first.T+time.Duration(k)*p.Resend {
 				add("sender.retransmission-early", []uint32{o.ID}, "retransmission %d of telegram %d went out %v after the first (resend interval %v)", k, o.ID, e.T-first.T, p.Resend)
 			}
 		}
